@@ -1,4 +1,5 @@
 import PegVerif.Proofs.Include
+import PegVerif.Proofs.NonVacuity
 /-
   C13 – `>Rule` behaves exactly like writing the rule's body (parenthesised) in place.
 
@@ -38,5 +39,80 @@ theorem C13_inlining_is_complete (g : Grammar) (k : Nat)
     (h : ∀ r, RuleEntry.rule r ∈ g.rules → ∃ fs, getFields g k r.definition = .ok fs) :
     ∀ r, RuleEntry.rule r ∈ (g.inlineAll k).rules → NoIncl r.definition :=
   noIncl_inlineAll g k h
+
+/-! ## non-vacuity (BEGIN) -/
+namespace C13_nv
+open Peg.NV
+
+/-! instance: nested includes, the included rule carries directives that must be ignored
+    ```
+    @export S = first:Num { >Plus } | word:Word ;
+    @string @memoize @position Plus = >Sign rest:Num ;
+    Sign = '+' | '-' ;
+    @string Num = {'0'..'9'}+ ;  @string Word = {'a'..'z'}+ ;
+    ```
+    on `"1 + 23"` -/
+def ruleSI : Rule := ⟨[.export], "S",
+  .choice [.seq [fld "first" "Num", .closure (.choice [.seq [.incl "Plus"]]) false], .seq [fld "word" "Word"]]⟩
+def rulePlus : Rule := ⟨[.string, .memoize, .position], "Plus", .choice [.seq [.incl "Sign", fld "rest" "Num"]]⟩
+def ruleSign : Rule := ⟨[], "Sign", .choice [.seq [lit '+'], .seq [lit '-']]⟩
+def envI : Env :=
+  { g := ⟨[.rule ruleSI, .rule rulePlus, .rule ruleSign, .rule (ruleNum []), .rule ruleWord]⟩, settings := {}, hooks := default, nf := 12 }
+
+/-- does the expression contain an include? -/
+def hasIncl : Nat → Expr → Bool
+  | 0, _ => true
+  | k+1, e => match e with
+    | .choice as => as.any (hasIncl k)
+    | .seq ps => ps.any (hasIncl k)
+    | .group b | .opt b | .closure b _ | .neg b | .pos b => hasIncl k b
+    | .incl _ => true
+    | _ => false
+
+/-- `C13_parsers_agree` at depth 9, and what the two sides are: the same success, tree and log; the original grammar
+    has includes, the inlined one has none (also by `C13_inlining_is_complete`) -/
+example : parseAdvanced (envI.inlined 9) 24 "S" inp1 0 = parseAdvanced envI 24 "S" inp1 0 :=
+  C13_parsers_agree envI 9 24 "S" inp1 0
+example : show' (parseAdvanced envI 24 "S" inp1 0) = some ("S { first: Some(S\"31\"), rest: [S\"3233\"], word: None }", 6) ∧
+    show' (parseAdvanced (envI.inlined 9) 24 "S" inp1 0) = some ("S { first: Some(S\"31\"), rest: [S\"3233\"], word: None }", 6) := by
+  decide
+example : (envI.g.findRule "S").map (fun r => hasIncl 20 r.definition) = some true ∧
+    ((envI.inlined 9).g.findRule "S").map (fun r => hasIncl 20 r.definition) = some false ∧
+    ((envI.inlined 9).g.findRule "Plus").map (fun r => hasIncl 20 r.definition) = some false := by decide
+/-- depth 8 is not enough for the nested include (so `K` matters) – and the parsers still agree -/
+example : ((envI.inlined 8).g.findRule "S").map (fun r => hasIncl 20 r.definition) = some true := by decide
+
+example : ∀ r, RuleEntry.rule r ∈ (envI.g.inlineAll 12).rules → NoIncl r.definition := by
+  refine C13_inlining_is_complete envI.g 12 (fun r hr => ?_)
+  simp only [envI, List.mem_cons, RuleEntry.rule.injEq, List.not_mem_nil, or_false] at hr
+  rcases hr with rfl | rfl | rfl | rfl | rfl <;> exact ⟨_, getFields_ok_of (env := envI) (by decide)⟩
+
+/-- `C13_site` at the include `>Plus` inside `S` (context of `S`, offset 1): the directives `@string @memoize @position`
+    of `Plus` play no role -/
+def ctxS : Ctx := ⟨true, ownFields envI ruleSI.definition⟩
+def mid : St := ⟨inp1.drop 1, 1, none⟩
+example : stepExpr envI (eval envI 20) 20 ctxS (.incl "Plus") mid (Global.init 0) =
+    stepExpr envI (eval envI 20) 20 ctxS (.group rulePlus.definition) mid (Global.init 0) :=
+  C13_site envI (eval envI 20) 20 ctxS "Plus" rulePlus mid (Global.init 0) rfl
+example : (match stepExpr envI (eval envI 20) 20 ctxS (.incl "Plus") mid (Global.init 0) with
+    | some (.ok p s, g) => (p.get "rest").map Val.render == some "[S\"3233\"]" && s.off == 6 && g.cache.length == 0
+    | _ => false) = true := by decide
+
+/-- `C13_types`: same descriptors for the definition of `S` before and after inlining -/
+example : getFields (envI.g.inlineAll 9) 12 (inlineE envI.g 9 ruleSI.definition) = getFields envI.g 12 ruleSI.definition :=
+  C13_types envI.g 9 9 12 ruleSI.definition
+example : ownFields envI ruleSI.definition = [⟨"first", [("Num", false)], .optional⟩, ⟨"rest", [("Num", false)], .multiple⟩,
+    ⟨"word", [("Word", false)], .optional⟩] := by decide
+
+/-- `C13_in_context`: the closure `{ >Plus }` and its inlined form `{ (( ('+' | '-') ) rest:Num) }` in the same grammar -/
+def cl : Expr := .closure (.choice [.seq [.incl "Plus"]]) false
+example : (eval envI 22).expr ctxS (inlineE envI.g 8 cl) mid (Global.init 0) = (eval envI 22).expr ctxS cl mid (Global.init 0) :=
+  C13_in_context envI 22 ctxS cl (inlineE envI.g 8 cl) mid (Global.init 0) (inl_inlineE envI.g 8 cl)
+example : hasIncl 20 cl = true ∧ hasIncl 20 (inlineE envI.g 8 cl) = false ∧
+    (match (eval envI 22).expr ctxS cl mid (Global.init 0) with | some (.ok _ s, _) => s.off == 6 | _ => false) = true := by
+  decide
+
+end C13_nv
+/-! ## non-vacuity (END) -/
 
 end Peg.Props
